@@ -760,6 +760,10 @@ type Treasure interface {
 	IsContentChanged() bool
 
 	IsContentTypeChanged() bool
+	// ResetChangeFlags clears every "...Changed" flag. The swamp calls it once a
+	// Save has acted on the flags, so that they describe what changed since the
+	// last save instead of since the record was loaded or created.
+	ResetChangeFlags(guardID guard.ID)
 	IsExpirationTimeChanged() bool
 	IsCreatedAtChanged() bool
 	IsCreatedByChanged() bool
@@ -2243,6 +2247,21 @@ func (t *treasure) IsDifferentFrom(guardID guard.ID, otherTreasure Treasure) boo
 func (t *treasure) Save(guardID guard.ID) TreasureStatus {
 	_ = t.Guard.CanExecute(guardID)
 	return t.saveMethod(t, guardID)
+}
+
+func (t *treasure) ResetChangeFlags(guardID guard.ID) {
+	_ = t.Guard.CanExecute(guardID)
+	t.mu.Lock()
+	defer t.mu.Unlock()
+	t.contentChanged = false
+	t.contentTypeChanged = false
+	t.expirationTimeChanged = false
+	t.createdAtChanged = false
+	t.createdByChanged = false
+	t.deletedAtChanged = false
+	t.deletedByChanged = false
+	t.modifiedAtChanged = false
+	t.modifiedByChanged = false
 }
 
 func (t *treasure) IsContentChanged() bool {
